@@ -27,8 +27,11 @@ theorem parseTokens_ne_fuel (ts : List Token) : parseTokens ts ≠ .error .fuel 
     exact hg.nf hp
   | ok p =>
     obtain ⟨nodes, rest⟩ := p
-    show (if hasDup (blockNamesL nodes) then perr "the block has already been defined" else pure nodes) ≠ _
-    split <;> intro h <;> cases h
+    show (if strayEnd rest then perr "unexpected tag without an open block"
+      else if hasDup (blockNamesL nodes) then perr "the block has already been defined" else pure nodes) ≠ _
+    split
+    · intro h; cases h
+    · split <;> intro h <;> cases h
 
 /-- `parseTemplate` never reports the fuel error -/
 theorem parseTemplate_ne_fuel (s : Bytes) : parseTemplate s ≠ .error .fuel := by
@@ -66,7 +69,8 @@ theorem parseOuter_textToks (Q : List Token) : ∀ (xs : List Bytes) (f : Nat),
 /-- the parse of a token stream with exactly the fuel it needs, and the duplicate-block check -/
 def parseCore (Q : List Token) : R (List Node) :=
   parseOuter (Q.length + 1) Q >>= fun x =>
-    if hasDup (blockNamesL x.1) then perr "the block has already been defined" else pure x.1
+    if strayEnd x.2 then perr "unexpected tag without an open block"
+    else if hasDup (blockNamesL x.1) then perr "the block has already been defined" else pure x.1
 
 /-- text tokens, then (optionally) a comment group, then text tokens in front of a stream `Q`: the parse is the parse
     of `Q` with those text nodes in front -/
@@ -81,7 +85,9 @@ theorem parseTokens_texts (xs : List Bytes) (Q : List Token) :
   | error e => rfl
   | ok x =>
     simp only [ok_bind, pure_eq_ok, blockNamesL_texts]
-    split <;> rfl
+    split
+    · rfl
+    · split <;> rfl
 
 theorem parseTokens_texts_comment (xs1 xs2 : List Bytes) (v : Bytes) (cs : List Token) (e : Token)
     (hcs : ∀ c ∈ cs, c.kind ≠ COMMENT_END) (he : e.kind = COMMENT_END) (Q : List Token) :
@@ -98,7 +104,9 @@ theorem parseTokens_texts_comment (xs1 xs2 : List Bytes) (v : Bytes) (cs : List 
   | error e => rfl
   | ok x =>
     simp only [ok_bind, pure_eq_ok, blockNamesL_texts, textsThen_append]
-    split <;> rfl
+    split
+    · rfl
+    · split <;> rfl
 
 /-- hence rendering such a stream: only the concatenation of the text tokens matters -/
 theorem render_texts_regroup (A B : List Token) (xs ys : List Bytes) (Q : List Token)
